@@ -147,8 +147,10 @@ def run_shard(ctx):
     n = ctx.params['cases']
     for i in range(n):
         case = RC.gen_case(ctx.rng, None, pruning=(i % 3 == 0))
-        if case['form'] in RC.SERIES_FORMS:
+        if case['form'] in RC.SERIES_FORMS or case['form'].startswith('streams-'):
             case['form'] = 'list' if i % 2 else 'dict'
+        if i % 9 == 5 and all(x is not None and not x.startswith('\ufeff') for x in case['xs']):
+            case['form'] = ['extract-bytes-sig-list', 'extract-bytes-list', 'extract-bytes-dict', 'extract-dict'][(i // 9) % 4]
         if i % 4 == 1 and case['xs']:
             for _ in range(ctx.rng.randint(1, 6)):       # heavy repeats
                 case['xs'].append(ctx.rng.choice(case['xs']))
